@@ -229,7 +229,8 @@ CLAIMED = {
        "decided by repetition - K+1 fresh parses per type (pairwise ==, matches, one HashSet entry, mut-wrapped match, the 13 "
        "static queries structurally equal; 32 three-member subsumption families) and K parse+run repetitions of each "
        "program in one process plus two more processes, outcomes canonicalised, on 8 hash-order-sensitive program families "
-       "and general generated programs.",
+       "and general generated programs; the error VALUES of K+3 parses of one rejected text are compared pairwise with == "
+       "(errors embed types).",
   note="Lean kernel; the Ty model is hand-written (tied by the C10 type stream); only hash order is addressed as a source of nondeterminism "
        "(the language has no clock / random source besides std I/O); repetition samples hash seeds, it does not enumerate them.",
   technique="Lean 4 proof (permutation invariance of the type algebra) + repetition oracle in and across processes", ref="DESIGN.md §6 C05"),
